@@ -45,7 +45,29 @@ def dump (ret : String) (s : ScaleSt) : String :=
   let regd := ((live ++ otherLive).map fun r => String.ofList r.replicaName)
   let rs := "[" ++ ",".intercalate (sortStrings regd.eraseDups) ++ "]"
   let alive := if s.gateClosed then otherLive.length else live.length + otherLive.length
-  s!"ret={ret} proj={ns} states={ns} snames={ns} logs={ns} run={rs} info=[{",".intercalate info}] alive={alive} launches={s.launches} stops={s.stops}"
+  -- what the listing reports for each process: a replica with a live command is Running (is_running),
+  -- one whose command finished is Completed, one still waiting for the gate is Pending
+  let repOf (r : PC.Load.Replica) : String :=
+    let st := if s.gateClosed then "Pending" else if s.ended.contains r.num then "Completed" else "Running"
+    String.ofList r.replicaName ++ ":" ++ st ++ ":" ++ (if st == "Running" then "1" else "0")
+  let repO := other.map fun r => String.ofList r.replicaName ++ (if s.oEnded then ":Completed:0" else ":Running:1")
+  let reps := "[" ++ ",".intercalate (sortStrings (s.cur.map repOf ++ repO)) ++ "]"
+  s!"ret={ret} proj={ns} states={ns} snames={ns} logs={ns} run={rs} info=[{",".intercalate info}] alive={alive} launches={s.launches} stops={s.stops} rep={reps}"
+
+/-- the `rep=` field of a result line -/
+def repField (res : String) : String :=
+  match res.splitOn " rep=" with
+  | [_, r] => r
+  | _ => ""
+
+/-- C09: the reported state of every process agrees with its commands (evaluated on the implementation's answer) -/
+def c09 (impl model : String) : String :=
+  if repField impl == repField model then "" else "; C09:reported-state-disagrees-with-the-live-commands want " ++ repField model
+
+def verd (impl want ids details : String) : String :=
+  if impl == want then "ok"
+  else if repField impl == repField want then "bad:" ++ ids ++ ":" ++ details
+  else "bad:" ++ ids ++ ",C09:" ++ details ++ c09 impl want
 
 /-- the property's reference: a fresh load with `replicas: n` -/
 def freshDump (ret : String) (s : ScaleSt) (n : Nat) : String :=
@@ -61,7 +83,7 @@ def scaleStep (s : ScaleSt) (line : String) : ScaleSt × String :=
       let gate := (po.splitOn ";").getD 4 "" == hexEnc "gate"
       let s' : ScaleSt := { g, w, o, cur, launches := if gate then 1 else cur.length + 1, stops := 0, gateClosed := gate }
       let d := dump "ok" s'
-      (s', d ++ " ||| " ++ (if impl == d then "ok" else "bad:C13:C13:fresh-load"))
+      (s', d ++ " ||| " ++ (verd impl d "C13" "C13:fresh-load"))
     | _, _, _ => (s, "bad-op")
   | ["sexit", th] =>
     match hexDec th with
@@ -70,7 +92,7 @@ def scaleStep (s : ScaleSt) (line : String) : ScaleSt × String :=
         | some r => { s with ended := if s.ended.contains r.num then s.ended else s.ended ++ [r.num] }
         | none => s
       let d := dump "ok" s'
-      (s', d ++ " ||| " ++ (if impl == d then "ok" else "bad:C13:C13:finished-replica-view"))
+      (s', d ++ " ||| " ++ (verd impl d "C13" "C13:finished-replica-view"))
     | none => (s, "bad-op")
   | ["gexit"] =>
     -- the gate opens: every replica that exists now is launched once; the goroutines of the replicas
@@ -78,7 +100,7 @@ def scaleStep (s : ScaleSt) (line : String) : ScaleSt × String :=
     let s' := if s.gateClosed then { s with gateClosed := false, oEnded := true, zombies := [], launches := s.launches + s.cur.length }
               else { s with oEnded := true }
     let d := dump "ok" s'
-    (s', d ++ " ||| " ++ (if impl == d then "ok" else "bad:C13,C14:C13:a replica removed while it was waiting for its dependency is launched later, or one that exists is not; C14:same"))
+    (s', d ++ " ||| " ++ (verd impl d "C13,C14" "C13:a replica removed while it was waiting for its dependency is launched later, or one that exists is not; C14:same"))
   | ["scupd", n] =>
     match n.toNat? with
     | some n =>
@@ -86,7 +108,7 @@ def scaleStep (s : ScaleSt) (line : String) : ScaleSt × String :=
       if n = s.cur.length then
         -- the edited file describes the running set: nothing is touched
         let d := dump "ok" s
-        (s, d ++ " ||| " ++ (if impl == d then "ok" else "bad:C14,C13:C14:unchanged-project-update-must-change-nothing; C13:unchanged-project-update-must-change-nothing"))
+        (s, d ++ " ||| " ++ (verd impl d "C14,C13" "C14:unchanged-project-update-must-change-nothing; C13:unchanged-project-update-must-change-nothing"))
       else
         -- every replica's configuration changes (its `replicas` field): each running one is stopped,
         -- every replica of the new set is started once
@@ -100,7 +122,7 @@ def scaleStep (s : ScaleSt) (line : String) : ScaleSt × String :=
           else { s with w := { s.w with replicas := n }, cur := PC.Load.replicasOf s.g s.w n,
                                      launches := s.launches + n, stops := s.stops + live, ended := [] }
         let d := dump "ok" s'
-        (s', d ++ " ||| " ++ (if impl == d then "ok" else "bad:C14,C13:C14:update-does-not-converge-to-the-new-replica-set; C13:not-the-replica-set-of-a-fresh-load"))
+        (s', d ++ " ||| " ++ (verd impl d "C14,C13" "C14:update-does-not-converge-to-the-new-replica-set; C13:not-the-replica-set-of-a-fresh-load"))
     | none => (s, "bad-op")
   | ["scale", th, n] =>
     match hexDec th, n.toInt? with
@@ -108,10 +130,10 @@ def scaleStep (s : ScaleSt) (line : String) : ScaleSt × String :=
       let keys := (s.cur.map fun r => String.ofList r.replicaName) ++ [String.ofList s.o.name]
       if n < 1 then
         let d := dump "bad-scale" s
-        (s, d ++ " ||| " ++ (if impl == d then "ok" else "bad:C13:C13:invalid-scale-must-change-nothing"))
+        (s, d ++ " ||| " ++ (verd impl d "C13" "C13:invalid-scale-must-change-nothing"))
       else if !(keys.contains target) then
         let d := dump "no-such" s
-        (s, d ++ " ||| " ++ (if impl == d then "ok" else "bad:C13:C13:unknown-name-must-change-nothing"))
+        (s, d ++ " ||| " ++ (verd impl d "C13" "C13:unknown-name-must-change-nothing"))
       else if target == String.ofList s.o.name then
         -- scaling the other process is outside this scenario family
         (s, "skip ||| ok")
@@ -129,7 +151,7 @@ def scaleStep (s : ScaleSt) (line : String) : ScaleSt × String :=
         let d := dump "ok" s'
         -- the specification is the fresh load with `replicas: n` (theorem `scale_eq_fresh` makes both agree)
         let want := freshDump "ok" s' n
-        (s', d ++ " ||| " ++ (if impl == want then "ok" else "bad:C13:C13:not-the-replica-set-of-a-fresh-load"))
+        (s', d ++ " ||| " ++ (verd impl want "C13" "C13:not-the-replica-set-of-a-fresh-load"))
     | _, _ => (s, "bad-op")
   | _ => (s, "bad-op")
 
